@@ -352,6 +352,11 @@ func lookalikes() {
 		smf.MetaUndefined(0x11, []byte{0x95, 1, 2}), // unknown meta with a status-like payload
 		smf.MetaSequencerData([]byte{0xB3, 7, 100}), // sequencer data that looks like a controller
 		smf.MetaChannel(7), smf.MetaPort(3),
+		// messages that end in the bytes of an end of track without being one
+		smf.MetaSequencerData([]byte{0x01, 0xFF, 0x2F, 0x00}),
+		smf.MetaText("x\xFF\x2F\x00"),
+		{0xF0, 0x01, 0xFF, 0x2F, 0x00},
+		{0xF7, 0xFF, 0x2F, 0x00},
 	}
 	for oi, om := range odd {
 		for pos := 0; pos < 4; pos++ {
